@@ -12,6 +12,8 @@ def run(tier, seed):
     lines_universe(rep, "vf.oracles:c08_verbatim", tier, "MarkdownIt.parse", "content lines are suffixes of their source lines minus indentation/markers; markup/info occur in the token's lines (hr: exact marker count); list start/info == digits")
     gen_universe(rep, "vf.oracles:c08_codespan", "vf.oracles2:gen_c08_spans", tier, "rules_inline.backticks.backtick", "code span content == text between the backtick strings (LF->space, one padding space stripped iff both present and not all U+0020)",
                  ["commonmark"], "all strings of <= k pieces over {space, a, LF, NBSP, TAB, EM SPACE, 'x y', VT}; distinct = distinct (prefix, length)", "code span interiors")
+    from .c17 import add_list
+    add_list(rep, "C08")
     rep.explanation = ("Mixed. Deductive: markup == the scanned marker run with its count (hr, heading, fence, lheading), info == src slice, content == getLines of exactly the token's "
                        "lines with the right indent (fence, code, html_block). Bounded: getLines' own contract (suffix-of-source-line), list/blockquote markup and the code span rule.")
     rep.trusted_base = STD_TRUST
